@@ -212,13 +212,25 @@ structure Step where
   prevs : List Nat
   deriving Repr, Inhabited
 
+/-- the sequents cited by a step (`prf.find_item(prev).th`) -/
+def lookupPrems (acc : List Thm) : List Nat → Except RErr (List Thm)
+  | [] => .ok []
+  | i :: rest =>
+    match acc[i]? with
+    | some th =>
+      match lookupPrems acc rest with
+      | .ok r => .ok (th :: r)
+      | .error e => .error e
+    | none => .error .badRef
+
 def runScript : List Step → List Thm → Except RErr (List Thm)
   | [], acc => .ok acc
-  | s :: rest, acc => do
-    let prems ← s.prevs.mapM (fun i => match acc[i]? with
-      | some th => .ok th
-      | none => .error RErr.badRef)
-    let th ← checkStep s.rule s.arg prems
-    runScript rest (acc ++ [th])
+  | s :: rest, acc =>
+    match lookupPrems acc s.prevs with
+    | .error e => .error e
+    | .ok prems =>
+      match checkStep s.rule s.arg prems with
+      | .error e => .error e
+      | .ok th => runScript rest (acc ++ [th])
 
 end Holpy
